@@ -63,6 +63,9 @@ def rec(c, name, value):
     """register a named input of the current path (for counterexample models)"""
     if not hasattr(c, "inputs"):
         c.inputs = {}
+    # arrays are snapshotted: code under test that writes into an argument must not rewrite the recorded input
+    if isinstance(value, (arrays.SymNd, np.ndarray)):
+        value = value.copy()
     c.inputs[name] = value
 
 
